@@ -24,6 +24,9 @@ CLAIMS = {
     "C11": ("spec/AggOps.tla, Aggregator.tla, MC_C11.tla, TraceAggregator.tla",
             "TLC checks C11_Tests (NAME scan, EXPECTFAIL, add_test signature by position) over argument orders and value coincidences; replayed behaviours compare the function directives carrying CMakeTest/CTest warnings; traces validated by TLC.",
             "keywords in upper case as CMake requires; NAME at most once", "4 C11"),
+    "C20": ("spec/RstWriter.tla, MC_C20.tla",
+            "TLC checks HeadingFramed, IndentExact, OptionsFirst, OrderPreserved, ClearKeepsHeading and the action property ToTextIsPure on the API-history machine for all histories up to the bound; every history ending in to_text is replayed on the real RSTWriter, each serialisation compared character for character with the specification's Lines(), serialised twice and the document compared before/after.",
+            "single-line field values; section/doctest/simple_table not exercised; bounds as in evidence", "4 C20"),
 }
 
 
